@@ -16,8 +16,16 @@
 (*   SnapFile     snapshot file written (tmp, fsync, rename, dir fsync)    *)
 (*   SnapMan1     MANIFEST: snapshot pointer, full segment list            *)
 (*   then, depending on FixCompactOrder:                                   *)
-(*     TRUE  (the code after the fix): SnapMan2 (pruned list) ; Unlink*    *)
+(*     TRUE  (the code after the fix): SnapMan2 (pruned list) ; Unlink* ;  *)
+(*           SnapMan3 (the code persists the pruned MANIFEST once more     *)
+(*           after the unlinks - PostUnlinkPersist)                        *)
 (*     FALSE (the code before the fix): Unlink* ; SnapMan2                 *)
+(* Batch delete (MaxBatch > 0): one frame per listed id that is present    *)
+(*   (duplicates included, consecutive sequence numbers allocated at       *)
+(*   once), one rotation check after the last frame, counter += frames.    *)
+(*   The frames are separate WalAppend steps: a crash between them leaves  *)
+(*   a partially applied batch (rec = "partial"; BatchAllOrNothing is the  *)
+(*   listed known finding and is checked as an expected counterexample).   *)
 (* Recovery (strict): MANIFEST must exist; load the snapshot it names;     *)
 (*   every listed segment must exist; replay frames with seq > last;       *)
 (*   RecCreate a fresh segment; RecMan append it to the MANIFEST.          *)
@@ -37,7 +45,10 @@ CONSTANTS NI, NV,           \* ids 1..NI, vectors 1..NV
           SnapEvery,        \* automatic snapshot interval (0 = off)
           RotAfter,         \* frames per segment before rotation (0 = never)
           FixCompactOrder,  \* TRUE = pruned MANIFEST before unlink (repaired code)
-          SeedSeqFromSnapshot  \* TRUE = recovery seeds next_wal_seq from the snapshot too (the code); FALSE = model twin of a seeded defect
+          SeedSeqFromSnapshot, \* TRUE = recovery seeds next_wal_seq from the snapshot too (the code); FALSE = model twin of a seeded defect
+          AnyRot,           \* TRUE = the rotation decision is left open (trace validation: the code rotates by bytes)
+          MaxBatch,         \* longest id list of a batch delete (0 = no batch deletes)
+          PostUnlinkPersist \* TRUE = MANIFEST persisted once more after the unlinks (the code)
 
 Ids == 1..NI
 Vecs == 1..NV
@@ -59,12 +70,22 @@ VARIABLES mem,        \* live store
 
 vars == <<mem, nextSeq, sinceSnap, ackd, infl, pc, segs, active, nextFile, snaps, man, snapTmp, nops, ncrash, rec>>
 
-NoOp == [t |-> "none", id |-> 0, v |-> 0, seq |-> 0]
+NoOp == [t |-> "none", id |-> 0, v |-> 0, seq |-> 0, fr |-> <<>>, k |-> 0]
+Single(t, id, v, seq) == [t |-> t, id |-> id, v |-> v, seq |-> seq, fr |-> <<>>, k |-> 0]
+BatchSeqs == UNION { [1..n -> Ids] : n \in 1..MaxBatch }
 NoMan == [snap |-> 0, snapSeq |-> 0, list |-> <<>>, ok |-> FALSE]
 NoSnapTmp == [docs |-> EmptyMem, last |-> 0, id |-> 0, todel |-> {}]
 
 ApplyOp(m, o) == IF o.t = "insert" THEN [m EXCEPT ![o.id] = o.v]
-                 ELSE IF o.t = "delete" THEN [m EXCEPT ![o.id] = 0] ELSE m
+                 ELSE IF o.t = "delete" THEN [m EXCEPT ![o.id] = 0]
+                 ELSE IF o.t = "bdelete" THEN [i \in Ids |-> IF \E j \in DOMAIN o.fr : o.fr[j] = i THEN 0 ELSE m[i]]
+                 ELSE m
+\* the first j frames of a batch delete applied
+ApplyPart(m, o, j) == [i \in Ids |-> IF \E x \in 1..j : o.fr[x] = i THEN 0 ELSE m[i]]
+\* the frame an operation writes (k-th frame of a batch, 1-based)
+FrameOf(o, k) == IF o.t = "bdelete" THEN [seq |-> o.seq + k - 1, t |-> "delete", id |-> o.fr[k], v |-> 0]
+                 ELSE [seq |-> o.seq, t |-> o.t, id |-> o.id, v |-> o.v]
+NFrames(o) == IF o.t = "bdelete" THEN Len(o.fr) ELSE 1
 
 SeqToSet(s) == { s[j] : j \in DOMAIN s }
 
@@ -98,17 +119,26 @@ Init ==
 (********************************* write path ********************************)
 Begin ==
   /\ pc = "idle" /\ nops < MaxOps
-  /\ \E id \in Ids :
-       \/ \E v \in Vecs : infl' = [t |-> "insert", id |-> id, v |-> v, seq |-> nextSeq]
-       \/ (mem[id] # 0 /\ infl' = [t |-> "delete", id |-> id, v |-> 0, seq |-> nextSeq])
-  /\ nextSeq' = nextSeq + 1 /\ nops' = nops + 1 /\ pc' = "begun"
+  /\ \/ \E id \in Ids :
+          /\ \/ \E v \in Vecs : infl' = Single("insert", id, v, nextSeq)
+             \/ (mem[id] # 0 /\ infl' = Single("delete", id, 0, nextSeq))
+          /\ nextSeq' = nextSeq + 1
+     \/ \E s \in BatchSeqs :
+          LET fr == SelectSeq(s, LAMBDA i : mem[i] # 0) IN
+          /\ fr # <<>>          \* nothing present: no frame, no sequence number (not an operation of this model)
+          /\ infl' = [t |-> "bdelete", id |-> 0, v |-> 0, seq |-> nextSeq, fr |-> fr, k |-> 0]
+          /\ nextSeq' = nextSeq + Len(fr)
+  /\ nops' = nops + 1 /\ pc' = "begun"
   /\ UNCHANGED <<mem, sinceSnap, ackd, segs, active, nextFile, snaps, man, snapTmp, ncrash, rec>>
 
 WalAppend ==
   /\ pc = "begun"
-  /\ segs' = [segs EXCEPT ![active] = Append(@, infl)]
-  /\ pc' = (IF RotAfter > 0 /\ Len(segs[active]) + 1 >= RotAfter THEN "rot_create" ELSE "apply")
-  /\ UNCHANGED <<mem, nextSeq, sinceSnap, ackd, infl, active, nextFile, snaps, man, snapTmp, nops, ncrash, rec>>
+  /\ segs' = [segs EXCEPT ![active] = Append(@, FrameOf(infl, infl.k + 1))]
+  /\ infl' = [infl EXCEPT !.k = @ + 1]
+  /\ IF infl.k + 1 < NFrames(infl) THEN pc' = "begun"
+     ELSE IF AnyRot THEN pc' \in {"rot_create", "apply"}
+     ELSE pc' = (IF RotAfter > 0 /\ Len(segs[active]) + 1 >= RotAfter THEN "rot_create" ELSE "apply")
+  /\ UNCHANGED <<mem, nextSeq, sinceSnap, ackd, active, nextFile, snaps, man, snapTmp, nops, ncrash, rec>>
 
 RotCreate ==
   /\ pc = "rot_create"
@@ -126,8 +156,8 @@ RotMan ==
 Apply ==
   /\ pc = "apply"
   /\ mem' = ApplyOp(mem, infl) /\ ackd' = ApplyOp(ackd, infl) /\ infl' = NoOp
-  /\ sinceSnap' = sinceSnap + 1
-  /\ pc' = (IF SnapEvery > 0 /\ sinceSnap + 1 >= SnapEvery THEN "snap_capture" ELSE "idle")
+  /\ sinceSnap' = sinceSnap + NFrames(infl)
+  /\ pc' = (IF SnapEvery > 0 /\ sinceSnap + NFrames(infl) >= SnapEvery THEN "snap_capture" ELSE "idle")
   /\ UNCHANGED <<nextSeq, segs, active, nextFile, snaps, man, snapTmp, nops, ncrash, rec>>
 
 (********************************** snapshot *********************************)
@@ -173,9 +203,16 @@ SnapUnlink ==
   /\ pc = "snap_unlink"
   /\ LET left == snapTmp.todel \cap DOMAIN segs IN
      IF left = {}
-     THEN /\ pc' = (IF FixCompactOrder THEN "snap_done" ELSE "snap_man2") /\ segs' = segs
+     THEN /\ pc' = (IF FixCompactOrder THEN (IF PostUnlinkPersist THEN "snap_man3" ELSE "snap_done") ELSE "snap_man2") /\ segs' = segs
      ELSE \E s \in left : /\ segs' = [k \in DOMAIN segs \ {s} |-> segs[k]] /\ pc' = pc
   /\ UNCHANGED <<mem, nextSeq, sinceSnap, ackd, infl, active, nextFile, snaps, man, snapTmp, nops, ncrash, rec>>
+
+\* the code saves the (already pruned) MANIFEST once more after the unlinks
+SnapMan3 ==
+  /\ pc = "snap_man3"
+  /\ man' = [man EXCEPT !.list = SelectSeq(@, LAMBDA s : s \notin snapTmp.todel)]
+  /\ pc' = "snap_done"
+  /\ UNCHANGED <<mem, nextSeq, sinceSnap, ackd, infl, segs, active, nextFile, snaps, snapTmp, nops, ncrash, rec>>
 
 SnapDone ==
   /\ pc = "snap_done" /\ sinceSnap' = 0 /\ snapTmp' = NoSnapTmp /\ pc' = "idle"
@@ -202,9 +239,11 @@ RecLoad ==
      ELSE /\ mem' = RecState
           /\ nextSeq' = (IF SeedSeqFromSnapshot /\ RecLast > MaxSeqOnDisk THEN RecLast ELSE MaxSeqOnDisk) + 1
           \* the in-flight operation is decided by what recovery found
-          /\ ackd' = IF infl.t # "none" /\ RecState = ApplyOp(ackd, infl) /\ RecState # ackd THEN ApplyOp(ackd, infl) ELSE ackd
+          /\ LET whole == RecState = ackd \/ (infl.t # "none" /\ RecState = ApplyOp(ackd, infl))
+                 part == infl.t = "bdelete" /\ \E j \in 1..Len(infl.fr) : RecState = ApplyPart(ackd, infl, j)
+             IN /\ ackd' = IF whole \/ part THEN RecState ELSE ackd
+                /\ rec' = IF whole THEN "ok" ELSE IF part THEN "partial" ELSE "wrong"
           /\ infl' = NoOp
-          /\ rec' = IF RecState = ackd \/ (infl.t # "none" /\ RecState = ApplyOp(ackd, infl)) THEN "ok" ELSE "wrong"
           /\ pc' = "rec_create"
   /\ sinceSnap' = 0 /\ snapTmp' = NoSnapTmp
   /\ UNCHANGED <<segs, active, nextFile, snaps, man, nops, ncrash>>
@@ -221,12 +260,14 @@ RecMan ==
   /\ UNCHANGED <<mem, nextSeq, sinceSnap, ackd, infl, segs, snaps, snapTmp, nops, ncrash, rec>>
 
 Next == \/ Begin \/ WalAppend \/ RotCreate \/ RotMan \/ Apply
-        \/ ManualSnapshot \/ SnapCapture \/ SnapFile \/ SnapMan1 \/ SnapMan2 \/ SnapUnlink \/ SnapDone
+        \/ ManualSnapshot \/ SnapCapture \/ SnapFile \/ SnapMan1 \/ SnapMan2 \/ SnapUnlink \/ SnapMan3 \/ SnapDone
         \/ Crash \/ Restart \/ RecLoad \/ RecCreate \/ RecMan
 
 (********************************* properties ********************************)
 \* C01: restart always succeeds and yields acknowledged (+ in-flight)
-CrashSafe == rec \in {"none", "ok"}
+CrashSafe == rec \in {"none", "ok", "partial"}
+\* the listed known finding C01-batch-delete-not-atomic: violated as soon as MaxBatch >= 2 (expected counterexample)
+BatchAllOrNothing == rec # "partial"
 \* C02 / C09-at-join: at an operation boundary the disk recovers to exactly the live state
 Quiescent == pc = "idle" => (RecOK /\ RecState = mem /\ mem = ackd)
 \* a sequence number at or below a committed snapshot is never handed out again
